@@ -363,8 +363,8 @@ impl StringDecoder for Utf8Decoder {
             .to_owned();
 
         // Update the cursor position
-        // The +1 is to skip the delimiter
-        *cursor += position + 1;
+        // The +1 is to skip the delimiter (if there was none, stop at the end of the data)
+        *cursor += (position + 1).min(data.len());
 
         Ok(result)
     }
